@@ -87,13 +87,30 @@ class Gen:
         return seen
 
     def cycle_closing_pair(self):
-        """(s, d) such that d already reaches s by directed edges: adding s->d closes a cycle"""
+        """(s, d) such that d already reaches s by directed edges and no edge joins them: adding s->d closes a cycle
+        (a directly joined pair would be rejected as a reverse / duplicate edge before the cycle check)"""
         names = self.names()
         self.r.shuffle(names)
+        joined = {(a, b) for a, b, _ in self.edges()} | {(b, a) for a, b, _ in self.edges()}
+        fallback = None
         for d in names:
-            rs = self.reach(d)
-            if rs:
-                return self.r.choice(sorted(rs)), d
+            rs = sorted(self.reach(d))
+            far = [s for s in rs if (s, d) not in joined and s != d]
+            if far:
+                return self.r.choice(far), d
+            if rs and fallback is None:
+                fallback = (self.r.choice(rs), d)
+        return fallback
+
+    def gen_cycle_by_retype(self):
+        """a non-directed edge (s, d) whose retyping to -> closes a cycle (d reaches s through other edges)"""
+        cands = []
+        for s, d, t in self.edges():
+            if t != '->' and s in self.reach(d):
+                cands.append((s, d))
+        if cands:
+            s, d = self.r.choice(cands)
+            return ['change_edge_type', s, d, '->']
         return None
 
     def endpoint(self, name):
@@ -120,6 +137,12 @@ class Gen:
                 s, d = p
                 return ['add_edge', s, d, '->' if r.random() < 0.85 else self.ety(), self.meta(), validate]
             s, d = self.any_name(), self.any_name()
+        elif x < 0.42:           # a non-directed edge that would close a cycle if it were directed
+            p = self.cycle_closing_pair()
+            if p:
+                s, d = p
+                return ['add_edge', s, d, r.choice(['--', '<>', 'oo', 'o>', 'o-']), self.meta(), validate]
+            s, d = self.existing(), self.existing()
         elif x < 0.6:
             s, d = self.existing(), self.existing()
         else:
@@ -152,6 +175,10 @@ class Gen:
     def gen_change_type(self):
         es = self.edges()
         r = self.r
+        if r.random() < 0.25:
+            op = self.gen_cycle_by_retype()
+            if op:
+                return op
         if es and r.random() < 0.85:
             s, d, t = r.choice(es)
             if r.random() < 0.1:
